@@ -736,7 +736,13 @@ pub type WeakHashMap<K, V> = HashMap<K, WeakIncr<V>>;
 
 impl<K: Hash + NotObserver, V> WeakMap for WeakHashMap<K, V> {
     fn garbage_collect(&mut self) {
+        #[cfg(cormacrelf_incremental_rs_verif)]
+        let verif_before = HashMap::len(self);
         self.retain(|_k, v| v.strong_count() != 0);
+        #[cfg(cormacrelf_incremental_rs_verif)]
+        if HashMap::len(self) < verif_before {
+            crate::verif::probe(crate::verif::Probe::WeakMapGcRemoved);
+        }
     }
     fn len(&self) -> usize {
         HashMap::len(self)
